@@ -118,6 +118,30 @@ pub fn gen(prop: &str, tier: &str, seed: u64, out: &mut Vec<String>) {
                 }
             }
         }
+        "C07cover" => {
+            // every (sink kind, flavour) pair on incomplete trees of more than two groups: a download in
+            // three pieces (head, tail incl. the size proof, everything), one piece interrupted
+            for &bs in &[0u32, 1, 2] {
+                let g = 1024u64 << bs;
+                let groups: &[u64] = if t { &[3, 4, 5, 6, 7, 9, 11, 13] } else { &[3, 5, 6, 7] };
+                for &ng in groups {
+                    for size in [ng * g - 300, ng * g] {
+                        let chunks = (size + 1023) / 1024;
+                        let b = format!("rnd:{}:{size}", r.below(100));
+                        let fill = 0x55;
+                        let head = nat_list(&[0, chunks / 2]);
+                        let tail = nat_list(&[chunks / 2]);
+                        let bd = item_boundaries(size, bs, &[chunks / 2]);
+                        let cut = bd[bd.len() / 2] + r.below(30);
+                        for sink in SINKS {
+                            for fl in ["sync", "fsm"] {
+                                out.push(format!("hist {fl} {sink} {b} {bs} {fill} {head}/0:0:$/-;{tail}/0:0:{cut}/-;{tail}/0:0:$/-;0/0:0:$/-"));
+                            }
+                        }
+                    }
+                }
+            }
+        }
         "C10" => {
             let ops = ["encv-sync", "encp-sync", "encv-fsm", "encp-fsm", "mixed", "decr-sync", "decr-fsm", "ob-sync", "ob-fsm",
                 "obpo-sync", "obpo-fsm", "copy-sync", "copy-fsm", "valid-sync", "valid-fsm", "validob-sync", "validob-fsm"];
